@@ -24,3 +24,12 @@ Print Assumptions C15_counter_undo_converges.
 Theorem C15_identity_reuse_refuted : at_undoer = Some [] /\ at_peer = Some [(1%N, 1)].
 Proof. exact identity_reuse_diverges. Qed.
 Print Assumptions C15_identity_reuse_refuted.
+
+(* finding P44 (repaired): a Remove that declined to execute on the undoer has no target on a peer
+   that purged the loser; it must not travel *)
+Theorem C15_skipped_remove_fails_on_purged_peer :
+  rht_visible p44_peer = [(2%N, 96)] /\
+  (exists h, p44_remove p44_peer = Some h /\ rht_visible h = [(2%N, 96)]) /\
+  (exists h, p44_peer_after_gc = Some h /\ rht_visible h = [(2%N, 96)] /\ p44_remove h = None).
+Proof. exact skipped_remove_fails_on_purged_peer. Qed.
+Print Assumptions C15_skipped_remove_fails_on_purged_peer.
